@@ -25,7 +25,11 @@ Record clk := {
   m : Z;                 (* _minimum_step_size *)
   std : Z;               (* _standard_step_size *)
   rows : list row;       (* next_event_time / step_size columns, all simulants (tracked or not) in label order *)
-  snooze : list Z        (* _simulants_to_snooze *)
+  snooze : list Z;       (* _simulants_to_snooze *)
+  untracked : list Z     (* labels whose `tracked` column is False.  The engine hands the clock the FULL population
+                            (engine.py: get_population(untracked=True).index, since commit a70d8de6 under every context
+                            class) and the clock's views contain the `tracked` column, hence apply no tracked filter:
+                            nothing below reads this field, which is what the theorems about it say *)
 }.
 
 (* ---- step_size_post_processor: min over the modifiers' values (NaN ignored; all NaN -> standard step),
@@ -48,7 +52,7 @@ Definition labels (rs : list row) : list Z := map lbl rs.
 Definition due (t : Z) (r : row) : bool := nxt r <=? t.
 
 Definition set_clk (c : clk) (T' S' : Z) (rs : list row) (sn : list Z) : clk :=
-  {| T := T'; S := S'; E := E c; m := m c; std := std c; rows := rs; snooze := sn |}.
+  {| T := T'; S := S'; E := E c; m := m c; std := std c; rows := rs; snooze := sn; untracked := untracked c |}.
 Definition with_S (c : clk) (s : Z) : clk := set_clk c (T c) s (rows c) (snooze c).
 
 (* ---- get_active_simulants(index = whole population, time) ---- *)
@@ -87,12 +91,41 @@ Definition step_forward_any (req : Z -> list (option Z)) (c : clk) : result clk 
   if pd_any (labels (rows c)) then step_forward req c
   else Ok (set_clk c (T c + S c) (S c) (rows c) (snooze c)).
 
+(* ---- step_forward / get_active_simulants on an index that is only PART of the population.  Before commit a70d8de6
+        InteractiveContext handed the clock the tracked simulants only; kept for the regression witness. ---- *)
+Definition active_on (sel : row -> bool) (c : clk) : list Z := labels (filter (due (T c + S c)) (filter sel (rows c))).
+Definition update_row_on (sel : row -> bool) (req : Z -> list (option Z)) (c : clk) (T' : Z) (r : row) : row :=
+  if sel r then update_row req c T' r else r.
+Definition step_forward_on (sel : row -> bool) (req : Z -> list (option Z)) (c : clk) : result clk :=
+  let T' := T c + S c in
+  match filter sel (rows c) with
+  | [] => Ok (set_clk c T' (S c) (rows c) (snooze c))
+  | idx =>
+    let U := filter (due T') idx in
+    match U with
+    | [] => Ok (set_clk c T' (min_next idx - T') (rows c) (snooze c))
+    | _ =>
+      if forallb (fun l => zmem l (labels U)) (snooze c) then
+        let rs := map (update_row_on sel req c T') (rows c) in
+        Ok (set_clk c T' (min_next (filter sel rs) - T') rs [])
+      else Rejected EOther
+    end
+  end.
+Definition is_tracked (c : clk) (r : row) : bool := negb (zmem (lbl r) (untracked c)).
+
 (* ---- move_simulants_to_end(index): Index.union (membership is all that matters); guard on the ARGUMENT ---- *)
 Definition snooze_op (c : clk) (idx : list Z) : clk :=
   match idx with
   | [] => c
   | _ => set_clk c (T c) (S c) (rows c) (snooze c ++ filter (fun l => negb (zmem l (snooze c))) idx)
   end.
+
+(* ---- a component sets `tracked` to False for some simulants (population view update; not a clock operation) ---- *)
+Definition untrack_op (c : clk) (idx : list Z) : clk :=
+  {| T := T c; S := S c; E := E c; m := m c; std := std c; rows := rows c; snooze := snooze c;
+     untracked := untracked c ++ idx |}.
+Definition with_untracked (c : clk) (u : list Z) : clk :=
+  {| T := T c; S := S c; E := E c; m := m c; std := std c; rows := rows c; snooze := snooze c; untracked := u |}.
 
 (* ---- creation of n simulants: labels len .. len+n-1, next = T + S (event_time), step = S of the moment ---- *)
 Fixpoint new_rows (first : Z) (n : nat) (t s : Z) : list row :=
@@ -109,12 +142,14 @@ Definition initialize (req : Z -> list (option Z)) (c : clk) (n : nat) : result 
 Inductive op :=
   | StepForward (req : Z -> list (option Z))
   | Create (n : nat)
-  | Snooze (idx : list Z).
+  | Snooze (idx : list Z)
+  | Untrack (idx : list Z).
 Definition apply_op (c : clk) (o : op) : result clk :=
   match o with
   | StepForward req => step_forward req c
   | Create n => Ok (create c n)
   | Snooze idx => Ok (snooze_op c idx)
+  | Untrack idx => Ok (untrack_op c idx)
   end.
 Fixpoint run_ops (c : clk) (ops : list op) : result clk :=
   match ops with
@@ -134,13 +169,14 @@ Definition WF (c : clk) : Prop := labels (rows c) = zrange 0 (length (rows c)).
         the end during any of them; then step_forward.  event_time reads the step_size property, which raises
         ValueError when `_clock_step_size == 0`: true of SimpleClock's numbers, never of a pd.Timedelta
         (`pd.Timedelta(0) == 0` is False), hence the flag [zchk] (a constant of the clock plugin). ---- *)
-Record ev_act := { births : nat; sn : list Z }.
-Definition ops_of (a : ev_act) : list op := [Snooze (sn a); Create (births a)].
+Record ev_act := { births : nat; sn : list Z; ut : list Z }.
+Definition ops_of (a : ev_act) : list op := [Snooze (sn a); Untrack (ut a); Create (births a)].
+Definition ev_apply (c : clk) (a : ev_act) : clk := create (untrack_op (snooze_op c (sn a)) (ut a)) (births a).
 Fixpoint run_events (c : clk) (acts : list ev_act) : clk * list (list Z) :=
   match acts with
   | [] => (c, [])
   | a :: r => let idx := active c in
-              let '(c2, idxs) := run_events (create (snooze_op c (sn a)) (births a)) r in (c2, idx :: idxs)
+              let '(c2, idxs) := run_events (ev_apply c a) r in (c2, idx :: idxs)
   end.
 Definition engine_step (zchk : bool) (req : Z -> list (option Z)) (c : clk) (acts : list ev_act)
   : result (clk * list (list Z)) :=
@@ -188,43 +224,103 @@ Fixpoint rows_eqb (l : list row) (t : list (Z * Z * Z)) : bool :=
   | _, _ => false
   end.
 
-(* observed state: clock, global step, (label, next_event_time, step_size) of every simulant *)
-Definition state_obs := (Z * Z * list (Z * Z * Z))%type.
+(* observed state: clock, global step, (label, next_event_time, step_size) of every simulant, labels with tracked = False *)
+Definition state_obs := (Z * Z * list (Z * Z * Z) * list Z)%type.
 Definition state_eqb (c : clk) (o : state_obs) : bool :=
-  let '(t, s, rs) := o in (T c =? t) && (S c =? s) && rows_eqb (rows c) rs.
+  let '(t, s, rs, u) := o in
+  (T c =? t) && (S c =? s) && rows_eqb (rows c) rs &&
+  forallb (fun r => Bool.eqb (zmem (lbl r) (untracked c)) (zmem (lbl r) u)) (rows c).
 
 (* one step as driven and observed: override, what the probe did in each of the four events, the recorded request
    table; observed: None = the step raised; Some (event time, the four event indexes, state after the step) *)
-Definition step_in := (option Z * list (nat * list Z) * req_table)%type.
+Definition step_in := (option Z * list (nat * list Z * list Z) * req_table)%type.
 Definition step_out := option (Z * list (list Z) * state_obs).
-Definition acts_of (l : list (nat * list Z)) : list ev_act := map (fun p => {| births := fst p; sn := snd p |}) l.
+Definition acts_of (l : list (nat * list Z * list Z)) : list ev_act :=
+  map (fun p => {| births := fst (fst p); sn := snd (fst p); ut := snd p |}) l.
+
+(* one step: None = model and observation disagree; Some None = both raised; Some (Some c2) = agree, state after *)
+Definition one_check (zchk : bool) (c : clk) (p : step_in * step_out) : option (option clk) :=
+  let '((ovr, acts, tbl), o) := p in
+  let ev := T c + (match ovr with Some s => s | None => S c end) in
+  match istep zchk ovr (req_of tbl) c (acts_of acts), o with
+  | Ok (c2, idxs), Some (et, oidx, so) =>
+      if (et =? ev) && list_eqb zlist_eqb idxs oidx && state_eqb c2 so &&
+         covered tbl (fst (run_events (match ovr with Some s => with_S c s | None => c end) (acts_of acts)))
+      then Some (Some c2) else None
+  | Rejected _, None => Some None
+  | _, _ => None
+  end.
 
 Fixpoint run_steps (zchk : bool) (c : clk) (ps : list (step_in * step_out)) : bool :=
   match ps with
   | [] => true
-  | ((ovr, acts, tbl), o) :: r =>
-    let ev := T c + (match ovr with Some s => s | None => S c end) in
-    match istep zchk ovr (req_of tbl) c (acts_of acts), o with
-    | Ok (c2, idxs), Some (et, oidx, so) =>
-        (et =? ev) && list_eqb zlist_eqb idxs oidx && state_eqb c2 so &&
-        covered tbl (fst (run_events (match ovr with Some s => with_S c s | None => c end) (acts_of acts))) &&
-        run_steps zchk c2 r
-    | Rejected _, None => match r with [] => true | _ => false end      (* the real step raised: end of the trace *)
-    | _, _ => false
+  | p :: r =>
+    match one_check zchk c p with
+    | Some (Some c2) => run_steps zchk c2 r
+    | Some None => match r with [] => true | _ => false end      (* the real step raised: end of the trace *)
+    | None => false
+    end
+  end.
+
+(* ---- InteractiveContext.run_until(end) / run_for(duration) / run(): `while clock.time < end: step()`; returns the
+        number of steps.  [steps] supplies what happens in each step (it is the fuel). ---- *)
+Definition step_spec := ((Z -> list (option Z)) * list ev_act)%type.
+Fixpoint run_until (z : bool) (endt : Z) (c : clk) (steps : list step_spec) : result (clk * nat) :=
+  match steps with
+  | [] => if T c <? endt then OutOfFuel else Ok (c, O)
+  | (req, acts) :: r =>
+    if T c <? endt then
+      match engine_step z req c acts with
+      | Ok (c1, _) => match run_until z endt c1 r with
+                      | Ok (c2, n) => Ok (c2, Datatypes.S n)
+                      | Rejected e => Rejected e
+                      | OutOfFuel => OutOfFuel
+                      end
+      | Rejected e => Rejected e
+      | OutOfFuel => OutOfFuel
+      end
+    else Ok (c, O)
+  end.
+Definition run_for (z : bool) (d : Z) (c : clk) := run_until z (T c + d) c.
+Definition run_to_stop (z : bool) (c : clk) := run_until z (E c) c.      (* SimulationContext.run / InteractiveContext.run *)
+
+(* observed calls: (end time, returned number of steps), in order; the steps of the trace belong to them in order *)
+Fixpoint settle (c : clk) (calls : list (Z * nat)) (k : nat) : option (list (Z * nat) * nat) :=
+  match calls with
+  | [] => Some ([], k)
+  | (e, n) :: r => if T c <? e then Some (calls, k) else if Nat.eqb n k then settle c r O else None
+  end.
+Fixpoint run_steps_until (zchk : bool) (c : clk) (calls : list (Z * nat)) (k : nat) (ps : list (step_in * step_out)) : bool :=
+  match settle c calls k with
+  | None => false
+  | Some (calls', k') =>
+    match ps with
+    | [] => match calls' with [] => true | _ => false end
+    | p :: r =>
+      match calls' with
+      | [] => false                                  (* a step outside every call *)
+      | _ => match one_check zchk c p with
+             | Some (Some c2) => run_steps_until zchk c2 calls' (Datatypes.S k') r
+             | Some None => match r with [] => true | _ => false end
+             | None => false
+             end
+      end
     end
   end.
 
 (* case: zero-step check of the plugin, (start, stop, minimum, standard, initial global step), population size, request
-         table of the initial update, observed state after initialize_simulants, then the steps *)
+         table of the initial update, observed state after initialize_simulants, the steps, and - for the run_until /
+         run_for / run driver - the observed calls (None for the other drivers) *)
 Definition clock_case :=
-  (bool * Z * Z * Z * Z * Z * nat * req_table * state_obs * list (step_in * step_out))%type.
+  (bool * Z * Z * Z * Z * Z * nat * req_table * state_obs * list (step_in * step_out) * option (list (Z * nat)))%type.
 (* literals: k six-hour units + r nanoseconds (keeps the generated files quick to parse; exact for every integer) *)
 Definition ns (k r : Z) : Z := k * 21600000000000 + r.
 Definition check_clock (k : clock_case) : bool :=
-  let '(zchk, t0, e, m0, std0, s0, n, tbl0, o0, ps) := k in
-  let c := {| T := t0; S := s0; E := e; m := m0; std := std0; rows := []; snooze := [] |} in
+  let '(zchk, t0, e, m0, std0, s0, n, tbl0, o0, ps, calls) := k in
+  let c := {| T := t0; S := s0; E := e; m := m0; std := std0; rows := []; snooze := []; untracked := [] |} in
   match initialize (req_of tbl0) c n with
-  | Ok c1 => state_eqb c1 o0 && covered tbl0 (pre_init c n) && run_steps zchk c1 ps
+  | Ok c1 => state_eqb c1 o0 && covered tbl0 (pre_init c n) &&
+             match calls with None => run_steps zchk c1 ps | Some cl => run_steps_until zchk c1 cl O ps end
   | _ => false
   end.
 
